@@ -1,5 +1,5 @@
-(* Property C09 - Evaluate is total: it never panics, and an error always comes with false. Statements only (proofs: Wt.v, WtEval.v). Panic is an explicit outcome of the model for every reflect call that panics in Go on the wrong kind. *)
-From Coq Require Import List String ZArith NArith Bool. From Bexpr Require Import Base Strconv Ast Univ Eval Wt WtEval. Import ListNotations.
+(* Property C09 - Evaluate is total: it never panics, and an error always comes with false. Statements only (proofs: Wt.v, WtEval.v, Hooks.v). Panic is an explicit outcome of the model for every reflect call that panics in Go on the wrong kind; a value-transformation hook is admitted when it preserves well-typedness (hook_ok), which every hook of the harness family does. *)
+From Coq Require Import List String ZArith NArith Bool. From Bexpr Require Import Base Strconv Ast Univ Eval Wt WtEval Hooks. Import ListNotations.
 
 Theorem c09_no_panic :
   forall (re : string -> string -> option bool) (cfg : config) (e : expr) (d : rv),
@@ -10,6 +10,25 @@ Theorem c09_no_panic :
 Proof. exact WtEval.c09_no_panic. Qed.
 Print Assumptions c09_no_panic.
 
+Theorem c09_no_panic_hook :
+  forall (re : string -> string -> option bool) (cfg : config) (e : expr) (d : rv),
+  hook_ok cfg -> match unknown cfg with
+                 | Some u => rwt u
+                 | None => True
+                 end -> wf_ast e -> rwt d -> eval re cfg [] e d <> Panic.
+Proof. exact WtEval.c09_no_panic_hook. Qed.
+Print Assumptions c09_no_panic_hook.
+
+Theorem hook_family_ok :
+  forall (cfg : config) (n : nat), hook cfg = hook_of n -> hook_ok cfg.
+Proof. exact Hooks.hook_family_ok. Qed.
+Print Assumptions hook_family_ok.
+
+Theorem hook_none_ok :
+  forall cfg : config, hook cfg = None -> hook_ok cfg.
+Proof. exact Wt.hook_none_ok. Qed.
+Print Assumptions hook_none_ok.
+
 Theorem c09_error_false :
   forall (re : string -> string -> option bool) (cfg : config) (e : expr) (d : iface) (b : bool) (c : errc),
   eval re cfg [] e d = Out b (Some c) -> b = false.
@@ -18,7 +37,7 @@ Print Assumptions c09_error_false.
 
 Theorem eval_np :
   forall (re : string -> string -> option bool) (cfg : config),
-  hook cfg = None ->
+  hook_ok cfg ->
   match unknown cfg with
   | Some u => rwt u
   | None => True
